@@ -81,6 +81,30 @@ def all_on_cfg():
     return {"rule": {rid: {"disable": False} for rid, v in sorted(configs_k1.inventory().items()) if v["disable"]}}
 
 
+def family_pair_items():
+    """two optional (disabled by default), fixable rules of one rule family enabled together, on every fixture of that family and on the single-construct generated designs: the
+    smallest configuration in which, for instance, after_001 (phase 1) and after_002 (phase 5) meet in one run without the other
+    optional rules interfering"""
+    import itertools
+
+    from .. import corpus, gen
+    from . import configs_k1
+
+    inv = configs_k1.inventory()
+    fam = {}
+    for rid, v in sorted(inv.items()):
+        if v["disable"] and v["fixable"] and v["phase"] < 7:
+            fam.setdefault(rid.rsplit("_", 1)[0], []).append(rid)
+    out = []
+    fixs = corpus.seed_ids(("fix",))
+    for f, rs in sorted(fam.items()):
+        seeds = [s for s in fixs if s.split("/")[1] == f] + gen.ids(single_only=True)
+        for a, b in itertools.combinations(sorted(rs), 2):
+            for s in seeds:
+                out.append(universe.mk(s, (), None, {"rule": {a: {"disable": False}, b: {"disable": False}}}, cfgname=f"{a}+{b}.enable_pair=true"))
+    return out
+
+
 def pipe_items(tier, kinds_q, kinds_t=None, k1=True, k1_rules=None, big=True, gen_thorough_kinds=None, focus=True, all_on=True, focus_extra=(), one_line=False):
     """the shared fix-run universe (DESIGN §5): 0 deviations over all seeds x K0; 1 layout deviation over
     S_q (quick) or all fix/cls/gen seeds (thorough); K1 deviations of each rule on its own fixture."""
@@ -95,6 +119,8 @@ def pipe_items(tier, kinds_q, kinds_t=None, k1=True, k1_rules=None, big=True, ge
         # the configuration that switches every optional (disabled by default) rule on: the only one under which rules such as
         # after_001 / after_002 meet inside one phase-ordered run
         out += [universe.mk(s, (), None, all_on_cfg(), cfgname="optional_rules.enable_all=true") for s in corpus.seed_ids(("fix", "cls"))]
+    if all_on:
+        out += family_pair_items()
     if one_line:
         # the whole design on one line (every comment-free seed): first-line / last-line / no-line-break corner cases of every rule
         out += universe.one_dev(corpus.seed_ids(("fix", "cls", "gen")), ("ALLJ",))
@@ -121,7 +147,7 @@ def wide_kinds(kinds_q, kinds_t):
 
 
 def bound_text(tier, kinds_q, kinds_t=None, focus_extra=()):
-    z = "every optional rule enabled x all fix/cls seeds; 0 deviations: all fix/cls/gen seeds (" + str(len(__import__("vsgmc.corpus", fromlist=["x"]).seed_ids(("fix", "cls", "gen")))) + ") + 23 large examples x {default, jcl, indent_only}" + (" (generated seeds: default and jcl only)" if tier == "quick" else "")
+    z = "every optional rule enabled x all fix/cls seeds, each pair of optional fixable rules of one family enabled x the fixtures of that family and the generated singles; 0 deviations: all fix/cls/gen seeds (" + str(len(__import__("vsgmc.corpus", fromlist=["x"]).seed_ids(("fix", "cls", "gen")))) + ") + 23 large examples x {default, jcl, indent_only}" + (" (generated seeds: default and jcl only)" if tier == "quick" else "")
     if tier == "quick":
         d = "1 layout deviation (" + ",".join(kinds_q) + ") at every applicable position of the small-seed slice S_q (<=25 lines, 176 seeds)"
         k = "1 configuration deviation (documented option values, first 2 per option) of each rule on its own fixture"
